@@ -149,6 +149,34 @@ pub fn panic_class(msg: &str) -> &'static str {
     }
 }
 
+/// a container whose by-reference iterator has an INEXACT size hint (`(0, Some(len))`): a series with gaps,
+/// iterated through `filter_map`. The generic signatures of the crate (`for<'a> &'a I: IntoIterator<Item = &'a T>`)
+/// admit it; only the observations that are present count.
+pub struct Sparse<T>(pub Vec<Option<T>>);
+impl<T: Clone> Sparse<T> {
+    /// the values of `xs` with `gaps` empty slots spread between them (and after them)
+    pub fn of(xs: &[T], gaps: usize) -> Self {
+        let mut v: Vec<Option<T>> = Vec::new();
+        for (i, x) in xs.iter().enumerate() {
+            if gaps > 0 && i % 2 == 1 {
+                v.push(None);
+            }
+            v.push(Some(x.clone()));
+        }
+        for _ in 0..gaps {
+            v.push(None);
+        }
+        Sparse(v)
+    }
+}
+impl<'a, T> IntoIterator for &'a Sparse<T> {
+    type Item = &'a T;
+    type IntoIter = std::iter::FilterMap<std::slice::Iter<'a, Option<T>>, fn(&'a Option<T>) -> Option<&'a T>>;
+    fn into_iter(self) -> Self::IntoIter {
+        self.0.iter().filter_map(Option::as_ref as fn(&'a Option<T>) -> Option<&'a T>)
+    }
+}
+
 /// run `f`, turning a panic into `panic <class>`
 pub fn guarded<F: FnOnce() -> String>(f: F) -> String {
     match catch_unwind(AssertUnwindSafe(f)) {
